@@ -21,6 +21,7 @@ import (
 	"github.com/MichaelMure/git-bug/entities/bug"
 	"github.com/MichaelMure/git-bug/entities/identity"
 	"github.com/MichaelMure/git-bug/entity"
+	"github.com/MichaelMure/git-bug/entity/dag"
 	"github.com/MichaelMure/git-bug/repository"
 	"github.com/MichaelMure/git-bug/util/lamport"
 	"github.com/ProtonMail/go-crypto/openpgp"
@@ -34,10 +35,13 @@ type injector struct {
 	mu     sync.Mutex
 	n      int
 	target int // die when the n-th mutation is about to happen (0 = never)
+	tear   int // how many bytes of an interrupted write reach the disk (-1: half of them)
 	log    []string
+	wlen   map[int]int // length of the n-th mutation when it is a write
+	trail  *os.File    // every mutation is also appended here: what a dying child did stays readable
 }
 
-var inj = &injector{}
+var inj = &injector{tear: -1, wlen: map[int]int{}}
 
 // hit records a mutation; returns true when the process must die at this one (after its partial effect, if any).
 func (i *injector) hit(kind string) bool {
@@ -45,6 +49,9 @@ func (i *injector) hit(kind string) bool {
 	defer i.mu.Unlock()
 	i.n++
 	i.log = append(i.log, kind)
+	if i.trail != nil {
+		fmt.Fprintln(i.trail, kind)
+	}
 	return i.target != 0 && i.n == i.target
 }
 
@@ -79,19 +86,23 @@ func (f faultRepo) StoreSignedCommit(tree repository.Hash, k *openpgp.Entity, pa
 	return f.ClockedRepo.StoreSignedCommit(tree, k, parents...)
 }
 func (f faultRepo) UpdateRef(ref string, h repository.Hash) error {
-	if inj.hit("ref") {
+	if inj.hit("ref " + ref) {
 		die()
 	}
 	return f.ClockedRepo.UpdateRef(ref, h)
 }
 func (f faultRepo) CopyRef(src, dst string) error {
-	if inj.hit("ref") {
+	if inj.hit("ref " + dst) {
 		die()
 	}
 	return f.ClockedRepo.CopyRef(src, dst)
 }
 func (f faultRepo) RemoveRef(ref string) error {
-	if inj.hit("rmref") {
+	kind := "rmref "
+	if strings.HasPrefix(ref, "refs/remotes/") {
+		kind = "rmtrack "
+	}
+	if inj.hit(kind + ref) {
 		die()
 	}
 	return f.ClockedRepo.RemoveRef(ref)
@@ -154,8 +165,16 @@ type faultFile struct {
 }
 
 func (f *faultFile) Write(p []byte) (int, error) {
-	if inj.hit("fs-write") {
-		_, _ = f.File.Write(p[:len(p)/2]) // a torn write: a proper prefix reaches the disk
+	dead := inj.hit("fs-write")
+	inj.mu.Lock()
+	inj.wlen[inj.n] = len(p)
+	inj.mu.Unlock()
+	if dead {
+		n := len(p) / 2 // a torn write: a proper prefix reaches the disk
+		if inj.tear >= 0 && inj.tear < len(p) {
+			n = inj.tear
+		}
+		_, _ = f.File.Write(p[:n])
 		die()
 	}
 	return f.File.Write(p)
@@ -173,7 +192,8 @@ type scenario struct {
 	name string
 	// prepare builds the state before the interrupted call (replica A in dir/A, hub in dir/hub, replica B in dir/B)
 	prepare func(dir string)
-	// run issues the call under test on replica A through the fault layer
+	// run issues the call under test on replica A through the fault layer; it must be repeatable (a second run on
+	// the state the first one left completes what is missing)
 	run func(dir string, repo repository.ClockedRepo, raw *repository.GoGitRepo)
 }
 
@@ -186,6 +206,18 @@ func openWorld(dir string) (a, b, hub *repository.GoGitRepo) {
 	return
 }
 
+func openB(dir string) *repository.GoGitRepo {
+	b, err := repository.OpenGoGitRepo(filepath.Join(dir, "B"), "git-bug", nil)
+	hx.Must(err)
+	return b
+}
+
+func openA(dir string) *repository.GoGitRepo {
+	a, err := repository.OpenGoGitRepo(filepath.Join(dir, "A"), "git-bug", nil)
+	hx.Must(err)
+	return a
+}
+
 func mkIdentity(repo repository.ClockedRepo, name string) *identity.Identity {
 	i, err := identity.NewIdentity(repo, name, name+"@example.org")
 	hx.Must(err)
@@ -193,35 +225,68 @@ func mkIdentity(repo repository.ClockedRepo, name string) *identity.Identity {
 	return i
 }
 
-func author(repo repository.ClockedRepo, name string) identity.Interface {
+// the streams are always drained: the goroutine behind them witnesses clocks, which has to happen before the caller goes
+// on (the sequence of mutations must not depend on the scheduler)
+func authorOrNil(repo repository.ClockedRepo, name string) *identity.Identity {
+	var res *identity.Identity
 	for s := range identity.ReadAllLocal(repo) {
 		hx.Must(s.Err)
-		if s.Entity.Name() == name {
-			return s.Entity
+		if s.Entity.Email() == name+"@example.org" {
+			res = s.Entity
 		}
+	}
+	return res
+}
+
+func author(repo repository.ClockedRepo, name string) identity.Interface {
+	if i := authorOrNil(repo, name); i != nil {
+		return i
 	}
 	hx.Die("no identity %s", name)
 	return nil
 }
 
-func theBug(repo repository.ClockedRepo) *bug.Bug {
-	for s := range bug.ReadAll(repo) {
-		hx.Must(s.Err)
-		return s.Entity
+func titleOf(b *bug.Bug) string {
+	if c, ok := b.FirstOp().(*bug.CreateOperation); ok {
+		return c.Title
 	}
-	hx.Die("no bug")
-	return nil
+	return "?"
 }
 
-// base: two authors known everywhere, one bug with two packs pushed and pulled by B
-func prepBase(dir string, withBug bool) {
+func bugByTitle(repo repository.ClockedRepo, title string) *bug.Bug {
+	var res *bug.Bug
+	for s := range bug.ReadAll(repo) {
+		hx.Must(s.Err)
+		if titleOf(s.Entity) == title {
+			res = s.Entity
+		}
+	}
+	return res
+}
+
+func theBug(repo repository.ClockedRepo) *bug.Bug {
+	b := bugByTitle(repo, "the bug")
+	if b == nil {
+		hx.Die("no bug")
+	}
+	return b
+}
+
+func resolvers(repo repository.ClockedRepo) entity.Resolvers {
+	return entity.Resolvers{&identity.Identity{}: identity.NewSimpleResolver(repo)}
+}
+
+// base: authors known everywhere, bugs (each two packs by two authors) pushed by A and pulled by B; A has fetched, so it
+// holds remote-tracking refs too
+func prepBaseN(dir string, authors []string, titles []string) {
 	a, b, hub := openWorld(dir)
-	mkIdentity(a, "alice")
-	mkIdentity(a, "bob")
-	if withBug {
-		bg, _, err := bug.Create(author(a, "alice"), 1600000000, "the bug", "first", nil, nil)
+	for _, n := range authors {
+		mkIdentity(a, n)
+	}
+	for k, t := range titles {
+		bg, _, err := bug.Create(author(a, authors[0]), 1600000000+int64(10*k), t, "first", nil, nil)
 		hx.Must(err)
-		_, _, err = bug.AddComment(bg, author(a, "bob"), 1600000001, "second", nil, nil)
+		_, _, err = bug.AddComment(bg, author(a, authors[1]), 1600000001+int64(10*k), "second", nil, nil)
 		hx.Must(err)
 		hx.Must(bg.Commit(a))
 	}
@@ -230,30 +295,51 @@ func prepBase(dir string, withBug bool) {
 	_, err = bug.Push(a, "origin")
 	hx.Must(err)
 	hx.Must(identity.Pull(b, "origin"))
-	if withBug {
-		hx.Must(bug.Pull(b, entity.Resolvers{&identity.Identity{}: identity.NewSimpleResolver(b)}, "origin", author(b, "alice")))
+	if len(titles) > 0 {
+		hx.Must(bug.Pull(b, resolvers(b), "origin", author(b, authors[0])))
+		_, err = bug.Fetch(a, "origin")
+		hx.Must(err)
 	}
+	_, err = identity.Fetch(a, "origin")
+	hx.Must(err)
 	_ = a.Close()
 	_ = b.Close()
 	_ = hub.Close()
 }
 
-func remoteEdit(dir string, n int) {
-	b, err := repository.OpenGoGitRepo(filepath.Join(dir, "B"), "git-bug", nil)
-	hx.Must(err)
-	bg := theBug(b)
+func prepBase(dir string, withBug bool) {
+	if withBug {
+		prepBaseN(dir, []string{"alice", "bob"}, []string{"the bug"})
+	} else {
+		prepBaseN(dir, []string{"alice", "bob"}, nil)
+	}
+}
+
+func remoteEdit(dir string, title string, n int, who string) {
+	b := openB(dir)
+	bg := bugByTitle(b, title)
 	for i := 0; i < n; i++ {
-		_, _, err := bug.AddComment(bg, author(b, "bob"), 1600000100+int64(i), fmt.Sprintf("remote %d", i), nil, nil)
+		_, _, err := bug.AddComment(bg, author(b, who), 1600000100+int64(i), fmt.Sprintf("remote %d", i), nil, nil)
 		hx.Must(err)
 		hx.Must(bg.Commit(b))
 	}
-	_, err = bug.Push(b, "origin")
+	_, err := bug.Push(b, "origin")
 	hx.Must(err)
 	_ = b.Close()
 }
 
-func resolvers(repo repository.ClockedRepo) entity.Resolvers {
-	return entity.Resolvers{&identity.Identity{}: identity.NewSimpleResolver(repo)}
+func localEdit(dir string, title string, who string) {
+	a := openA(dir)
+	bg := bugByTitle(a, title)
+	_, _, err := bug.AddComment(bg, author(a, who), 1600000500, "local", nil, nil)
+	hx.Must(err)
+	hx.Must(bg.Commit(a))
+	_ = a.Close()
+}
+
+func pullAll(repo repository.ClockedRepo) {
+	hx.Must(identity.Pull(repo, "origin"))
+	hx.Must(bug.Pull(repo, resolvers(repo), "origin", author(repo, "alice")))
 }
 
 func scenarios() []scenario {
@@ -300,8 +386,7 @@ func scenarios() []scenario {
 			}},
 		{"pull-new-bug", func(dir string) {
 			prepBase(dir, false)
-			b, err := repository.OpenGoGitRepo(filepath.Join(dir, "B"), "git-bug", nil)
-			hx.Must(err)
+			b := openB(dir)
 			bg, _, err := bug.Create(author(b, "bob"), 1600000400, "from b", "message", nil, nil)
 			hx.Must(err)
 			hx.Must(bg.Commit(b))
@@ -311,23 +396,53 @@ func scenarios() []scenario {
 		}, func(dir string, repo repository.ClockedRepo, raw *repository.GoGitRepo) {
 			hx.Must(bug.Pull(repo, resolvers(repo), "origin", author(repo, "alice")))
 		}},
-		{"pull-fast-forward", func(dir string) { prepBase(dir, true); remoteEdit(dir, 2) },
+		{"pull-fast-forward", func(dir string) { prepBase(dir, true); remoteEdit(dir, "the bug", 2, "bob") },
 			func(dir string, repo repository.ClockedRepo, raw *repository.GoGitRepo) {
 				hx.Must(bug.Pull(repo, resolvers(repo), "origin", author(repo, "alice")))
 			}},
 		{"pull-diverged-merge", func(dir string) {
 			prepBase(dir, true)
-			remoteEdit(dir, 2)
-			a, err := repository.OpenGoGitRepo(filepath.Join(dir, "A"), "git-bug", nil)
-			hx.Must(err)
-			bg := theBug(a)
-			_, _, err = bug.AddComment(bg, author(a, "alice"), 1600000500, "local", nil, nil)
-			hx.Must(err)
-			hx.Must(bg.Commit(a))
-			_ = a.Close()
+			remoteEdit(dir, "the bug", 2, "bob")
+			localEdit(dir, "the bug", "alice")
 		}, func(dir string, repo repository.ClockedRepo, raw *repository.GoGitRepo) {
 			hx.Must(bug.Pull(repo, resolvers(repo), "origin", author(repo, "alice")))
 		}},
+		{"pull-several-entities", func(dir string) {
+			// one pull that creates a bug, fast-forwards one, merges one, and brings a new identity and a new version of another
+			prepBaseN(dir, []string{"alice", "bob"}, []string{"the bug", "second bug", "third bug"})
+			b := openB(dir)
+			dave := mkIdentity(b, "dave")
+			bob := author(b, "bob").(*identity.Identity)
+			hx.Must(bob.Mutate(b, func(m *identity.Mutator) { m.Login = "bobby" }))
+			hx.Must(bob.Commit(b))
+			bg, _, err := bug.Create(dave, 1600000400, "from dave", "message", nil, nil)
+			hx.Must(err)
+			hx.Must(bg.Commit(b))
+			_, err = identity.Push(b, "origin")
+			hx.Must(err)
+			_ = b.Close()
+			remoteEdit(dir, "the bug", 2, "bob")
+			remoteEdit(dir, "second bug", 1, "dave")
+			localEdit(dir, "second bug", "alice")
+			localEdit(dir, "third bug", "alice")
+		}, func(dir string, repo repository.ClockedRepo, raw *repository.GoGitRepo) { pullAll(repo) }},
+		{"remove-bug", func(dir string) { prepBaseN(dir, []string{"alice", "bob"}, []string{"the bug", "second bug"}) },
+			func(dir string, repo repository.ClockedRepo, raw *repository.GoGitRepo) {
+				// the id is asked from replica B: a repeated call still finds it
+				pre := openB(dir)
+				id := theBug(pre).Id()
+				_ = pre.Close()
+				hx.Must(bug.Remove(repo, id))
+			}},
+		{"remove-identity", func(dir string) { prepBaseN(dir, []string{"alice", "bob", "carol"}, nil) },
+			func(dir string, repo repository.ClockedRepo, raw *repository.GoGitRepo) {
+				pre := openB(dir)
+				id := author(pre, "carol").Id()
+				_ = pre.Close()
+				if err := identity.Remove(repo, id); err != nil && !entity.IsErrNotFound(err) {
+					hx.Must(err)
+				}
+			}},
 		{"read-only", func(dir string) { prepBase(dir, true) },
 			func(dir string, repo repository.ClockedRepo, raw *repository.GoGitRepo) {
 				_ = theBug(repo) // reading witnesses the clocks: clock files are rewritten
@@ -335,7 +450,142 @@ func scenarios() []scenario {
 	}
 }
 
+// ---- generated scenarios: "gen:<kind>:<seed>", everything derived from the seed so that a child process rebuilds the
+// same call from the name
+
+type rng struct{ s uint64 }
+
+func newRng(seed uint64) *rng { return &rng{s: seed*2685821657736338717 + 1442695040888963407} }
+func (r *rng) n(k int) int {
+	r.s ^= r.s << 13
+	r.s ^= r.s >> 7
+	r.s ^= r.s << 17
+	return int((r.s >> 3) % uint64(k))
+}
+
+var genAuthors = []string{"alice", "bob", "carol"}
+var genTitles = []string{"the bug", "second bug", "third bug"}
+
+func randomOp(r *rng, bg *bug.Bug, a identity.Interface, unix int64, k int) {
+	var err error
+	switch r.n(5) {
+	case 0, 1:
+		_, _, err = bug.AddComment(bg, a, unix, fmt.Sprintf("generated comment %d", k), nil, nil)
+	case 2:
+		_, err = bug.SetTitle(bg, a, unix, fmt.Sprintf("generated title %d", k), nil)
+	case 3:
+		_, err = bug.ForceChangeLabels(bg, a, unix, []string{fmt.Sprintf("l%d", k)}, nil, nil)
+	default:
+		_, _, err = bug.AddComment(bg, a, unix, fmt.Sprintf("generated note %d", k), nil, map[string]string{"k": fmt.Sprint(k)})
+	}
+	hx.Must(err)
+}
+
+func genScenario(name string) scenario {
+	parts := strings.Split(name, ":")
+	if len(parts) != 3 {
+		hx.Die("bad generated scenario %s", name)
+	}
+	seed, err := strconv.ParseUint(parts[2], 10, 64)
+	hx.Must(err)
+	switch parts[1] {
+	case "commit":
+		return scenario{name, func(dir string) { prepBaseN(dir, genAuthors, genTitles[:2]) },
+			func(dir string, repo repository.ClockedRepo, raw *repository.GoGitRepo) {
+				r := newRng(seed)
+				var bg *bug.Bug
+				if r.n(2) == 0 {
+					var err error
+					bg, _, err = bug.Create(author(repo, genAuthors[r.n(3)]), 1600000200, "fresh bug", "message", nil, nil)
+					hx.Must(err)
+				} else {
+					bg = bugByTitle(repo, genTitles[r.n(2)])
+				}
+				m := 1 + r.n(6)
+				for k := 0; k < m; k++ {
+					randomOp(r, bg, author(repo, genAuthors[r.n(3)]), 1600000201+int64(k), k)
+				}
+				hx.Must(bg.Commit(repo))
+			}}
+	case "identity":
+		return scenario{name, func(dir string) { prepBaseN(dir, genAuthors, nil) },
+			func(dir string, repo repository.ClockedRepo, raw *repository.GoGitRepo) {
+				r := newRng(seed)
+				var i *identity.Identity
+				muts := r.n(3)
+				if r.n(2) == 0 {
+					var err error
+					i, err = identity.NewIdentity(repo, "dave", "dave@example.org")
+					hx.Must(err)
+				} else {
+					i = author(repo, genAuthors[r.n(3)]).(*identity.Identity)
+					muts++
+				}
+				for k := 0; k < muts; k++ {
+					kk := k
+					hx.Must(i.Mutate(repo, func(m *identity.Mutator) {
+						m.Login = fmt.Sprintf("login%d", kk)
+						if kk%2 == 1 {
+							m.AvatarUrl = fmt.Sprintf("https://example.org/%d.png", kk)
+						}
+					}))
+				}
+				hx.Must(i.Commit(repo))
+			}}
+	case "pull":
+		return scenario{name, func(dir string) {
+			prepBaseN(dir, genAuthors, genTitles)
+			r := newRng(seed)
+			b := openB(dir)
+			withDave := r.n(2) == 0
+			if withDave {
+				mkIdentity(b, "dave")
+			}
+			for k := 0; k < r.n(3); k++ {
+				who := author(b, genAuthors[r.n(3)]).(*identity.Identity)
+				kk := k
+				hx.Must(who.Mutate(b, func(m *identity.Mutator) { m.Login = fmt.Sprintf("remote-login-%d", kk) }))
+				hx.Must(who.Commit(b))
+			}
+			for k := 0; k < r.n(3); k++ {
+				who := genAuthors[r.n(3)]
+				if withDave && r.n(2) == 0 {
+					who = "dave"
+				}
+				bg, _, err := bug.Create(author(b, who), 1600000400+int64(k), fmt.Sprintf("remote new %d", k), "message", nil, nil)
+				hx.Must(err)
+				for j := 0; j < r.n(3); j++ {
+					randomOp(r, bg, author(b, genAuthors[r.n(3)]), 1600000410+int64(j), j)
+				}
+				hx.Must(bg.Commit(b))
+			}
+			_, err := identity.Push(b, "origin")
+			hx.Must(err)
+			_, err = bug.Push(b, "origin")
+			hx.Must(err)
+			_ = b.Close()
+			for _, t := range genTitles {
+				switch r.n(4) {
+				case 0: // untouched
+				case 1:
+					remoteEdit(dir, t, 1+r.n(2), genAuthors[r.n(3)])
+				case 2:
+					remoteEdit(dir, t, 1+r.n(2), genAuthors[r.n(3)])
+					localEdit(dir, t, genAuthors[r.n(3)])
+				case 3:
+					localEdit(dir, t, genAuthors[r.n(3)])
+				}
+			}
+		}, func(dir string, repo repository.ClockedRepo, raw *repository.GoGitRepo) { pullAll(repo) }}
+	}
+	hx.Die("bad generated scenario %s", name)
+	return scenario{}
+}
+
 func scenarioByName(n string) scenario {
+	if strings.HasPrefix(n, "gen:") {
+		return genScenario(n)
+	}
 	for _, s := range scenarios() {
 		if s.name == n {
 			return s
@@ -345,109 +595,181 @@ func scenarioByName(n string) scenario {
 	return scenario{}
 }
 
-// Child: vh crash-child <dir> <scenario> <target>
+// Child: vh crash-child <dir> <scenario> <target> [<tear>]
 func Child(args []string) {
 	dir, sc := args[0], scenarioByName(args[1])
 	target, _ := strconv.Atoi(args[2])
 	inj.target = target
+	if len(args) > 3 {
+		inj.tear, _ = strconv.Atoi(args[3])
+	}
+	var err error
+	inj.trail, err = os.OpenFile(filepath.Join(dir, "trail.log"), os.O_CREATE|os.O_TRUNC|os.O_WRONLY, 0o644)
+	hx.Must(err)
 	repository.VerifWrapLocalStorage = func(fs billy.Filesystem) billy.Filesystem { return faultFS{fs} }
 	raw, err := repository.OpenGoGitRepo(filepath.Join(dir, "A"), "git-bug", nil)
 	hx.Must(err)
 	sc.run(dir, faultRepo{raw}, raw)
 	_ = raw.Close()
-	b, _ := json.Marshal(map[string]interface{}{"mutations": inj.log})
+	wl := map[string]int{}
+	for k, v := range inj.wlen {
+		wl[strconv.Itoa(k)] = v
+	}
+	b, _ := json.Marshal(map[string]interface{}{"mutations": inj.log, "wlen": wl})
 	fmt.Println(string(b))
 }
 
 // ---------------------------------------------------------------------------------------------------- parent
 
-type Record struct {
-	Scenario  string   `json:"scenario"`
-	K         int      `json:"k"`         // crash point: mutations 1..k-1 done, mutation k interrupted (k = n+1: nothing interrupted)
-	N         int      `json:"n"`         // number of mutations of the uninterrupted call
-	Mutations []string `json:"mutations"` // their kinds, in order
-	OpenErr   string   `json:"openerr"`
-	ReadErr   string   `json:"readerr"`
-	Outcome   string   `json:"outcome"` // pre | post | other
-	State     string   `json:"state"`
-	ClockOK   bool     `json:"clockok"`
-	ClockWhy  string   `json:"clockwhy"`
-	Redo      string   `json:"redo"` // post | other | "" (not needed)
-	RedoErr   string   `json:"redoerr"`
+type Mut struct {
+	Kind string `json:"kind"`
+	Ent  string `json:"ent"`
 }
 
-// signature of a repository: every entity with the kinds and texts of its operations / versions (ids differ from run
-// to run because of nonces, so states are compared structurally), plus clock sanity.
-func signature(dir string) (sig string, openErr, readErr string, clockOK bool, clockWhy string) {
+type Record struct {
+	Scenario  string            `json:"scenario"`
+	K         int               `json:"k"`         // crash point: mutations 1..k-1 done, mutation k interrupted (k = n+1: nothing interrupted)
+	Tear      int               `json:"tear"`      // bytes of the interrupted write that reached the disk (-1: half)
+	N         int               `json:"n"`         // number of mutations of the uninterrupted call
+	Mutations []Mut             `json:"mutations"` // kind and, for ref mutations, the entity
+	OpenErr   string            `json:"openerr"`
+	ReadErr   string            `json:"readerr"`
+	Outcome   map[string]string `json:"outcome"` // entity -> unchanged | pre | post | other
+	State     string            `json:"state"`
+	ClockOK   bool              `json:"clockok"`
+	ClockWhy  string            `json:"clockwhy"`
+	Redo      string            `json:"redo"` // post | other | "" (not needed)
+	RedoErr   string            `json:"redoerr"`
+	Redo2     string            `json:"redo2"` // "" (not tried) | ok | other: the repeated call was itself interrupted, then repeated
+	Redo2Err  string            `json:"redo2err"`
+}
+
+type sig struct {
+	states   map[string]string // entity label -> structural state
+	ids      map[string]string // entity id -> label
+	openErr  string
+	readErr  string
+	clockOK  bool
+	clockWhy string
+}
+
+func (s sig) String() string {
+	var parts []string
+	for l, st := range s.states {
+		parts = append(parts, l+"="+st)
+	}
+	sort.Strings(parts)
+	return strings.Join(parts, ";")
+}
+
+func opText(op dag.Operation) string {
+	switch o := op.(type) {
+	case *bug.CreateOperation:
+		return o.Title + "/" + o.Message
+	case *bug.AddCommentOperation:
+		return o.Message
+	case *bug.SetTitleOperation:
+		return o.Title
+	case *bug.SetStatusOperation:
+		return o.Status.String()
+	case *bug.LabelChangeOperation:
+		return fmt.Sprint(o.Added, o.Removed)
+	}
+	return fmt.Sprintf("%T", op)
+}
+
+// signature of a repository: every entity (labelled by what never changes: the title a bug was created with, the email
+// of an identity) with the kinds, authors and texts of its operations / the fields of its last version and the number of
+// commits under its ref (ids differ from run to run because of nonces, so states are compared structurally), plus
+// clock sanity.
+func signature(dir string) (s sig) {
+	s.states, s.ids = map[string]string{}, map[string]string{}
 	repo, err := repository.OpenGoGitRepo(filepath.Join(dir, "A"), "git-bug", []repository.ClockLoader{bug.ClockLoader})
 	if err != nil {
-		return "", err.Error(), "", false, "repository does not open"
+		s.openErr, s.clockWhy = err.Error(), "repository does not open"
+		return
 	}
 	defer repo.Close()
-	var parts []string
 	maxEdit, maxCreate := 0, 0
+	ncommits := func(ref string) int {
+		cs, err := repo.ListCommits(ref)
+		if err != nil {
+			return -1
+		}
+		return len(cs)
+	}
 	func() {
 		defer func() {
 			if p := recover(); p != nil {
-				readErr = fmt.Sprintf("panic: %v", p)
+				s.readErr = fmt.Sprintf("panic: %v", p)
 			}
 		}()
-		for s := range bug.ReadAll(repo) {
-			if s.Err != nil {
-				readErr = "bug: " + s.Err.Error()
+		for st := range bug.ReadAll(repo) {
+			if st.Err != nil {
+				s.readErr = "bug: " + st.Err.Error()
 				return
 			}
 			var ops []string
-			for _, op := range s.Entity.Operations() {
-				txt := ""
-				switch o := op.(type) {
-				case *bug.CreateOperation:
-					txt = o.Title + "/" + o.Message
-				case *bug.AddCommentOperation:
-					txt = o.Message
-				case *bug.SetTitleOperation:
-					txt = o.Title
-				}
-				ops = append(ops, fmt.Sprintf("%d:%s:%s", op.Type(), op.Author().Name(), txt))
+			for _, op := range st.Entity.Operations() {
+				ops = append(ops, fmt.Sprintf("%d:%s:%s", op.Type(), op.Author().Email(), opText(op)))
 			}
-			if err := s.Entity.Validate(); err != nil {
-				readErr = "bug invalid: " + err.Error()
+			if err := st.Entity.Validate(); err != nil {
+				s.readErr = "bug invalid: " + err.Error()
 			}
-			if int(s.Entity.EditLamportTime()) > maxEdit {
-				maxEdit = int(s.Entity.EditLamportTime())
+			if int(st.Entity.EditLamportTime()) > maxEdit {
+				maxEdit = int(st.Entity.EditLamportTime())
 			}
-			if int(s.Entity.CreateLamportTime()) > maxCreate {
-				maxCreate = int(s.Entity.CreateLamportTime())
+			if int(st.Entity.CreateLamportTime()) > maxCreate {
+				maxCreate = int(st.Entity.CreateLamportTime())
 			}
-			parts = append(parts, "bug["+strings.Join(ops, ",")+"]")
+			label := "bug:" + titleOf(st.Entity)
+			if _, dup := s.states[label]; dup {
+				label += "#" + st.Entity.Id().String() // two entities created by one repeated call: never equal to pre or post
+			}
+			s.states[label] = fmt.Sprintf("commits=%d[%s]", ncommits("refs/bugs/"+st.Entity.Id().String()), strings.Join(ops, ","))
+			s.ids[st.Entity.Id().String()] = label
 		}
-		for s := range identity.ReadAllLocal(repo) {
-			if s.Err != nil {
-				readErr = "identity: " + s.Err.Error()
+		for st := range identity.ReadAllLocal(repo) {
+			if st.Err != nil {
+				s.readErr = "identity: " + st.Err.Error()
 				return
 			}
-			parts = append(parts, fmt.Sprintf("identity[%s/%s]", s.Entity.Name(), s.Entity.Login()))
+			if err := st.Entity.Validate(); err != nil {
+				s.readErr = "identity invalid: " + err.Error()
+			}
+			label := "identity:" + st.Entity.Email()
+			if _, dup := s.states[label]; dup {
+				label += "#" + st.Entity.Id().String()
+			}
+			s.states[label] = fmt.Sprintf("versions=%d[%s/%s/%s/keys=%d]", ncommits("refs/identities/"+st.Entity.Id().String()),
+				st.Entity.Name(), st.Entity.Login(), st.Entity.AvatarUrl(), len(st.Entity.Keys()))
+			s.ids[st.Entity.Id().String()] = label
 		}
 	}()
-	sort.Strings(parts)
-	sig = strings.Join(parts, ";")
 	// the clocks must be usable and not behind anything stored under a local ref
-	clockOK = true
+	s.clockOK = true
 	check := func(name string, floor int) {
 		c, err := repo.GetOrCreateClock(name)
 		if err != nil {
-			clockOK, clockWhy = false, name+": "+err.Error()
+			s.clockOK, s.clockWhy = false, name+": "+err.Error()
 			return
 		}
 		if int(c.Time()) < floor {
-			clockOK, clockWhy = false, fmt.Sprintf("%s = %d is lower than a stored time %d", name, c.Time(), floor)
+			s.clockOK, s.clockWhy = false, fmt.Sprintf("%s = %d is lower than a stored time %d", name, c.Time(), floor)
 		}
 		if _, err := repo.Increment(name); err != nil {
-			clockOK, clockWhy = false, name+" cannot be incremented: "+err.Error()
+			s.clockOK, s.clockWhy = false, name+" cannot be incremented: "+err.Error()
 		}
 	}
 	check("bugs-edit", maxEdit)
 	check("bugs-create", maxCreate)
+	if all, err := repo.AllClocks(); err != nil {
+		s.clockOK, s.clockWhy = false, "AllClocks: "+err.Error()
+	} else {
+		for name := range all {
+			check(name, 0)
+		}
+	}
 	_ = lamport.Time(0)
 	return
 }
@@ -459,108 +781,255 @@ func copyDir(src, dst string) {
 	}
 }
 
-func child(dir, sc string, target int) (mutations []string, exit int, out string) {
-	cmd := exec.Command(os.Args[0], "crash-child", dir, sc, strconv.Itoa(target))
+type childResult struct {
+	Mutations []string       `json:"mutations"`
+	Wlen      map[string]int `json:"wlen"`
+}
+
+func child(dir, sc string, target, tear int) (res childResult, exit int, out string) {
+	cmd := exec.Command(os.Args[0], "crash-child", dir, sc, strconv.Itoa(target), strconv.Itoa(tear))
 	b, err := cmd.CombinedOutput()
 	out = string(b)
 	if err != nil {
 		if ee, ok := err.(*exec.ExitError); ok {
-			return nil, ee.ExitCode(), out
+			return res, ee.ExitCode(), out
 		}
 		hx.Die("child: %v", err)
 	}
-	var res struct {
-		Mutations []string `json:"mutations"`
-	}
 	lines := strings.Split(strings.TrimSpace(out), "\n")
 	hx.Must(json.Unmarshal([]byte(lines[len(lines)-1]), &res))
-	return res.Mutations, 0, out
+	return res, 0, out
 }
 
-// Run: vh crash <out>
+func trail(dir string) []string {
+	b, err := os.ReadFile(filepath.Join(dir, "trail.log"))
+	if err != nil {
+		return nil
+	}
+	t := strings.TrimSpace(string(b))
+	if t == "" {
+		return nil
+	}
+	return strings.Split(t, "\n")
+}
+
+func kindOf(entry string) string { return strings.SplitN(entry, " ", 2)[0] }
+
+// Run: vh crash <out> [<generated scenarios per kind> [<scenario> <k> <tear>]]
 func Run(args []string) {
 	out := hx.NewWriter(args[0])
 	defer out.Close()
+	ngen := 0
+	if len(args) > 1 {
+		fmt.Sscan(args[1], &ngen)
+	}
+	thorough := os.Getenv("VERIF_TIER") == "thorough"
 	type job struct {
-		sc   scenario
-		base string
-		muts []string
-		pre  string
-		post string
-		k    int
+		sc    scenario
+		base  string
+		muts  []Mut
+		kinds []string
+		pre   sig
+		post  sig
+		k     int
+		tear  int
 	}
 	var jobs []job
 	root := hx.Scratch("crash")
 	defer os.RemoveAll(root)
-	for _, sc := range scenarios() {
-		base := filepath.Join(root, sc.name+"-base")
+	scs := scenarios()
+	seed := uint64(hx.Seed())
+	for i := 0; i < ngen; i++ {
+		for _, kind := range []string{"commit", "identity", "pull"} {
+			scs = append(scs, genScenario(fmt.Sprintf("gen:%s:%d", kind, seed*1000+uint64(i))))
+		}
+	}
+	// vh crash <out> 0 <scenario> <k> <tear>: one crash point (replay)
+	onlyK, onlyTear := 0, -1
+	if len(args) > 4 {
+		scs = []scenario{scenarioByName(args[2])}
+		fmt.Sscan(args[3], &onlyK)
+		fmt.Sscan(args[4], &onlyTear)
+	}
+	var mu sync.Mutex
+	hx.Parallel(len(scs), 0, func(si int) {
+		sc := scs[si]
+		fsname := strings.ReplaceAll(sc.name, ":", "_")
+		base := filepath.Join(root, fsname+"-base")
 		hx.Must(os.MkdirAll(base, 0o755))
 		sc.prepare(base)
 		// inspection touches the clocks (it increments them): always inspect a copy
-		tmp := filepath.Join(root, sc.name+"-tmp")
+		tmp := filepath.Join(root, fsname+"-tmp")
 		copyDir(base, tmp)
-		pre, oe, re, _, _ := signature(tmp)
+		pre := signature(tmp)
 		os.RemoveAll(tmp)
-		if oe != "" || re != "" {
-			hx.Die("scenario %s: the state before the call is not readable: %s %s", sc.name, oe, re)
+		if pre.openErr != "" || pre.readErr != "" {
+			hx.Die("scenario %s: the state before the call is not readable: %s %s", sc.name, pre.openErr, pre.readErr)
 		}
-		ref := filepath.Join(root, sc.name+"-ref")
+		ref := filepath.Join(root, fsname+"-ref")
 		copyDir(base, ref)
-		muts, code, o := child(ref, sc.name, 0)
+		res, code, o := child(ref, sc.name, 0, -1)
 		if code != 0 {
 			hx.Die("scenario %s: the uninterrupted call failed: %s", sc.name, o)
 		}
-		post, oe, re, _, _ := signature(ref)
+		post := signature(ref)
 		os.RemoveAll(ref)
-		if oe != "" || re != "" {
-			hx.Die("scenario %s: the state after the call is not readable: %s %s", sc.name, oe, re)
+		if post.openErr != "" || post.readErr != "" {
+			hx.Die("scenario %s: the state after the call is not readable: %s %s", sc.name, post.openErr, post.readErr)
 		}
+		// entity of every ref mutation: the id is the last component of the ref name
+		var muts []Mut
+		for _, e := range res.Mutations {
+			f := strings.SplitN(e, " ", 2)
+			m := Mut{Kind: f[0]}
+			if len(f) == 2 {
+				id := f[1][strings.LastIndex(f[1], "/")+1:]
+				m.Ent = post.ids[id]
+				if m.Ent == "" {
+					m.Ent = pre.ids[id]
+				}
+				if m.Ent == "" {
+					hx.Die("scenario %s: ref %s belongs to no entity seen before or after the call", sc.name, f[1])
+				}
+			}
+			muts = append(muts, m)
+		}
+		var js []job
 		for k := 1; k <= len(muts)+1; k++ {
-			jobs = append(jobs, job{sc, base, muts, pre, post, k})
+			tears := []int{-1}
+			if thorough && k <= len(muts) && muts[k-1].Kind == "fs-write" {
+				tears = nil
+				for t := 0; t < res.Wlen[strconv.Itoa(k)]; t++ {
+					tears = append(tears, t)
+				}
+			}
+			for _, t := range tears {
+				if onlyK != 0 && (k != onlyK || (onlyTear >= 0 && t != onlyTear)) {
+					continue
+				}
+				js = append(js, job{sc, base, muts, res.Mutations, pre, post, k, t})
+			}
 		}
+		mu.Lock()
+		jobs = append(jobs, js...)
+		mu.Unlock()
+	})
+	sort.SliceStable(jobs, func(i, j int) bool {
+		if jobs[i].sc.name != jobs[j].sc.name {
+			return jobs[i].sc.name < jobs[j].sc.name
+		}
+		return jobs[i].k < jobs[j].k
+	})
+	classify := func(j job, s sig) map[string]string {
+		oc := map[string]string{}
+		labels := map[string]bool{}
+		for l := range j.pre.states {
+			labels[l] = true
+		}
+		for l := range j.post.states {
+			labels[l] = true
+		}
+		for l := range s.states {
+			labels[l] = true
+		}
+		for l := range labels {
+			st, pre, post := s.states[l], j.pre.states[l], j.post.states[l]
+			switch {
+			case st == pre && st == post:
+				oc[l] = "unchanged"
+			case st == post:
+				oc[l] = "post"
+			case st == pre:
+				oc[l] = "pre"
+			default:
+				oc[l] = "other"
+			}
+		}
+		return oc
 	}
+	same := func(a, b sig) bool { return a.String() == b.String() }
 	hx.Parallel(len(jobs), 0, func(i int) {
 		j := jobs[i]
-		dir := filepath.Join(root, fmt.Sprintf("%s-k%d", j.sc.name, j.k))
+		dir := filepath.Join(root, fmt.Sprintf("%s-k%d-t%d", strings.ReplaceAll(j.sc.name, ":", "_"), j.k, j.tear))
 		copyDir(j.base, dir)
 		defer os.RemoveAll(dir)
-		rec := Record{Scenario: j.sc.name, K: j.k, N: len(j.muts), Mutations: append([]string{}, j.muts...)}
+		rec := Record{Scenario: j.sc.name, K: j.k, Tear: j.tear, N: len(j.muts), Mutations: append([]Mut{}, j.muts...)}
 		if j.k <= len(j.muts) {
-			_, code, o := child(dir, j.sc.name, j.k)
+			_, code, o := child(dir, j.sc.name, j.k, j.tear)
 			if code != 77 {
 				hx.Die("scenario %s crash point %d: child exited %d instead of dying at the crash point: %s", j.sc.name, j.k, code, o)
 			}
+			// the dying child must have walked the path of the reference run (same kinds in the same order)
+			tr := trail(dir)
+			if len(tr) != j.k {
+				hx.Die("scenario %s crash point %d: the child logged %d mutations", j.sc.name, j.k, len(tr))
+			}
+			for x, e := range tr {
+				if kindOf(e) != kindOf(j.kinds[x]) {
+					hx.Die("scenario %s crash point %d: mutation %d is %s in the child and %s in the reference run (the call is not deterministic)",
+						j.sc.name, j.k, x+1, kindOf(e), kindOf(j.kinds[x]))
+				}
+			}
 		} else {
-			if _, code, o := child(dir, j.sc.name, 0); code != 0 {
+			if _, code, o := child(dir, j.sc.name, 0, -1); code != 0 {
 				hx.Die("scenario %s: uninterrupted run failed: %s", j.sc.name, o)
 			}
 		}
 		// the state is inspected on a copy (inspection itself touches the clocks); the redo runs on the crashed directory
 		insp := dir + "-inspect"
 		copyDir(dir, insp)
-		sig, oe, re, cok, cwhy := signature(insp)
+		s := signature(insp)
 		os.RemoveAll(insp)
-		rec.OpenErr, rec.ReadErr, rec.ClockOK, rec.ClockWhy, rec.State = oe, re, cok, cwhy, sig
-		switch {
-		case oe != "" || re != "":
-			rec.Outcome = "other"
-		case sig == j.post:
-			rec.Outcome = "post"
-		case sig == j.pre:
-			rec.Outcome = "pre"
-		default:
-			rec.Outcome = "other"
+		rec.OpenErr, rec.ReadErr, rec.ClockOK, rec.ClockWhy, rec.State = s.openErr, s.readErr, s.clockOK, s.clockWhy, s.String()
+		rec.Outcome = classify(j, s)
+		needRedo := false
+		for _, v := range rec.Outcome {
+			if v == "pre" {
+				needRedo = true
+			}
 		}
-		if rec.Outcome == "pre" && j.pre != j.post {
-			_, code, o := child(dir, j.sc.name, 0)
+		if needRedo && s.openErr == "" && s.readErr == "" {
+			if thorough {
+				// the repeated call is itself interrupted (at a point derived from the job), then repeated
+				k2 := 1 + (j.k*7+3)%len(j.muts)
+				d2 := dir + "-again"
+				copyDir(dir, d2)
+				_, code, o := child(d2, j.sc.name, k2, -1)
+				if code != 77 && code != 0 {
+					rec.Redo2, rec.Redo2Err = "other", fmt.Sprintf("the repeated call (to be interrupted at %d) failed: %s", k2, lastLine(o))
+				} else {
+					i2 := d2 + "-inspect"
+					copyDir(d2, i2)
+					s2 := signature(i2)
+					os.RemoveAll(i2)
+					rec.Redo2 = "ok"
+					for l, v := range classify(j, s2) {
+						if v == "other" {
+							rec.Redo2, rec.Redo2Err = "other", fmt.Sprintf("after a second crash (at %d) entity %s is neither old nor new: %s", k2, l, s2.states[l])
+						}
+					}
+					if s2.openErr != "" || s2.readErr != "" || !s2.clockOK {
+						rec.Redo2, rec.Redo2Err = "other", fmt.Sprintf("after a second crash (at %d): %s %s %s", k2, s2.openErr, s2.readErr, s2.clockWhy)
+					}
+					if rec.Redo2 == "ok" {
+						if _, code, o := child(d2, j.sc.name, 0, -1); code != 0 {
+							rec.Redo2, rec.Redo2Err = "other", "repeating the call after two crashes failed: "+lastLine(o)
+						} else if s3 := signature(d2); !same(s3, j.post) {
+							rec.Redo2, rec.Redo2Err = "other", "state after two crashes and a complete call: "+s3.String()
+						}
+					}
+				}
+				os.RemoveAll(d2)
+			}
+			_, code, o := child(dir, j.sc.name, 0, -1)
 			if code != 0 {
 				rec.Redo, rec.RedoErr = "other", "repeating the call failed: "+lastLine(o)
 			} else {
-				sig2, oe2, re2, _, _ := signature(dir)
-				if oe2 == "" && re2 == "" && sig2 == j.post {
+				s2 := signature(dir)
+				if s2.openErr == "" && s2.readErr == "" && same(s2, j.post) {
 					rec.Redo = "post"
 				} else {
-					rec.Redo, rec.RedoErr = "other", oe2+re2+" state: "+sig2
+					rec.Redo, rec.RedoErr = "other", s2.openErr+s2.readErr+" state: "+s2.String()
 				}
 			}
 		}
